@@ -80,7 +80,9 @@ pub enum OpKind {
     FilterMap,
     Mapi,
     FilterMapi,
-    Fold { update: bool, revert: bool },
+    /// `keyed`: the accumulator is indexed by key (add overwrites the key's slot, remove deletes it) instead of
+    /// a commutative sum: invertible, but sensitive to the order of remove(old) / add(new) for one key
+    Fold { update: bool, revert: bool, keyed: bool },
     /// incr_filter_mapi followed by incr_map: the second operator's input is another operator's output
     ChainFilterThenMap,
 }
@@ -119,6 +121,50 @@ fn map_like_expected(op: OpKind, k: u8, v: &SV) -> Option<SV> {
 
 fn w(k: u8, v: &SV) -> SV {
     app(F_W, &[lit(k), v.clone()])
+}
+
+const F_CONS: u16 = 20;
+
+/// key-indexed accumulator encoded as a term: cons(k1, e1, cons(k2, e2, ... init)) with ascending keys
+fn assoc_decode(t: &SV) -> (Vec<(u8, SV)>, SV) {
+    let mut cur = t.clone();
+    let mut out = vec![];
+    loop {
+        let next = match &*cur.0 {
+            crate::term::T::App(f, args) if *f == F_CONS && args.len() == 3 => match &*args[0].0 {
+                crate::term::T::Lit(k) => {
+                    out.push((*k as u8, args[1].clone()));
+                    args[2].clone()
+                }
+                _ => break,
+            },
+            _ => break,
+        };
+        cur = next;
+    }
+    (out, cur)
+}
+
+fn assoc_encode(mut entries: Vec<(u8, SV)>, tail: SV) -> SV {
+    entries.sort_by_key(|e| e.0);
+    let mut t = tail;
+    for (k, e) in entries.into_iter().rev() {
+        t = app(F_CONS, &[lit(k), e, t]);
+    }
+    t
+}
+
+fn assoc_add(acc: &SV, k: u8, e: SV) -> SV {
+    let (mut es, tail) = assoc_decode(acc);
+    es.retain(|x| x.0 != k);
+    es.push((k, e));
+    assoc_encode(es, tail)
+}
+
+fn assoc_remove(acc: &SV, k: u8) -> SV {
+    let (mut es, tail) = assoc_decode(acc);
+    es.retain(|x| x.0 != k);
+    assoc_encode(es, tail)
 }
 
 enum Out<M: MapT<SV>> {
@@ -220,15 +266,23 @@ where
                         None,
                     )
                 }
-                OpKind::Fold { update, revert } => {
+                OpKind::Fold { update, revert, keyed } => {
                     let (l1, l2, l3) = (log.clone(), log.clone(), log.clone());
                     let add = move |acc: SV, k: &u8, v: &SV| {
                         l1.borrow_mut().push((Role::Add, *k));
-                        acc.add(&w(*k, v))
+                        if keyed {
+                            assoc_add(&acc, *k, w(*k, v))
+                        } else {
+                            acc.add(&w(*k, v))
+                        }
                     };
                     let remove = move |acc: SV, k: &u8, v: &SV| {
                         l2.borrow_mut().push((Role::Remove, *k));
-                        acc.sub(&w(*k, v))
+                        if keyed {
+                            assoc_remove(&acc, *k)
+                        } else {
+                            acc.sub(&w(*k, v))
+                        }
                     };
                     let n = if update {
                         input.incr_unordered_fold_update(
@@ -237,7 +291,11 @@ where
                             remove,
                             move |acc: SV, k: &u8, old: &SV, new: &SV| {
                                 l3.borrow_mut().push((Role::Update, *k));
-                                acc.add(&w(*k, new).sub(&w(*k, old)))
+                                if keyed {
+                                    assoc_add(&acc, *k, w(*k, new))
+                                } else {
+                                    acc.add(&w(*k, new).sub(&w(*k, old)))
+                                }
                             },
                             revert,
                         )
@@ -405,8 +463,12 @@ where
                             Out::Fold(_, o) => {
                                 let got: SV = o.as_ref().unwrap().value();
                                 let mut want = c0.clone();
-                                for (k, v) in &model {
-                                    want = want.add(&w(*k, v));
+                                if matches!(op, OpKind::Fold { keyed: true, .. }) {
+                                    want = assoc_encode(model.iter().map(|(k, v)| (*k, w(*k, v))).collect(), c0.clone());
+                                } else {
+                                    for (k, v) in &model {
+                                        want = want.add(&w(*k, v));
+                                    }
                                 }
                                 let (g2, w2) = (got.clone(), want.clone());
                                 require("C15/fold-value", F::eq(&got, &want), move || format!("fold output {g2:?}, definition gives {w2:?}"));
